@@ -74,43 +74,37 @@ Section LEAF.
   Qed.
 
   Lemma num_checks_ok c x :
-    g_excl_here c = true ->
     forallb chk_ok (num_checks fmt_ok st c x) = num_ok fmt_ok c x.
   Proof.
-    intros Hex. unfold num_checks, num_ok.
-    unfold g_excl_here in Hex. cbn [forallb]. rewrite fmt_chk_ok.
+    unfold num_checks, num_ok.
+    cbn [forallb]. rewrite fmt_chk_ok.
     destruct (permits c "integer" && negb (permits c "number")) eqn:Hri.
     - destruct (fmt_pass fmt_ok c "integer" (JNum x));
       destruct (c_exMin c), (c_exMax c), (c_min c) as [m|], (c_max c) as [M|], (c_mult c) as [q|];
-        cbn in Hex; try discriminate; cbn [negb orb andb];
+        cbn [negb orb andb];
         destruct (f_is_int x); cbn [chk_ok andb]; try reflexivity;
         repeat match goal with
         | |- context [PrimFloat.ltb ?a ?b] => destruct (PrimFloat.ltb a b)
         | |- context [PrimFloat.leb ?a ?b] => destruct (PrimFloat.leb a b)
         end; cbn [chk_ok andb orb negb]; try reflexivity;
-        unfold f_is_int; destruct (f_is_nan (PrimFloat.div x q)); cbn [chk_ok andb negb]; try reflexivity;
-        match goal with |- context [if ?b then COk else _] => destruct b end; reflexivity.
+        destruct (f_is_int (PrimFloat.div x q)); reflexivity.
     - destruct (permits c "integer" || permits c "number").
       + destruct (fmt_pass fmt_ok c "number" (JNum x));
         destruct (c_exMin c), (c_exMax c), (c_min c) as [m|], (c_max c) as [M|], (c_mult c) as [q|];
-        cbn in Hex; try discriminate; cbn [negb orb andb chk_ok];
+        cbn [negb orb andb chk_ok];
         repeat match goal with
         | |- context [PrimFloat.ltb ?a ?b] => destruct (PrimFloat.ltb a b)
         | |- context [PrimFloat.leb ?a ?b] => destruct (PrimFloat.leb a b)
         end; cbn [chk_ok andb orb negb]; try reflexivity;
-        unfold f_is_int; destruct (f_is_nan (PrimFloat.div x q)); cbn [chk_ok andb negb]; try reflexivity;
-        match goal with |- context [if ?b then COk else _] => destruct b end; reflexivity.
+        destruct (f_is_int (PrimFloat.div x q)); reflexivity.
       + reflexivity.
   Qed.
 
   Lemma num_checks_nopanic c x :
-    g_excl_here c = true ->
-    match c_mult c with Some m => f_is_nan (PrimFloat.div x m) = false | None => True end ->
     forallb chk_nopanic (num_checks fmt_ok st c x) = true.
   Proof.
-    intros Hex Hm. unfold num_checks, g_excl_here, fmt_chk in *. cbn [forallb].
+    unfold num_checks, fmt_chk. cbn [forallb].
     destruct (c_exMin c), (c_exMax c), (c_min c) as [m|], (c_max c) as [M|], (c_mult c) as [q|];
-      cbn in Hex; try discriminate; try rewrite Hm;
       repeat match goal with
       | |- context [if ?b then _ else _] => destruct b
       | |- context [match ?o with Some _ => _ | None => _ end] => destruct o
